@@ -135,6 +135,7 @@ def run_cli(run, rid, proj, wd, devnull):
                          "echo": echo if isinstance(echo, str) else "",
                          "reaction": rec.get(col, "") if isinstance(rec.get(col, ""), str) else "",
                          "solved": str(rec.get("solved", "")) == "True",
+                         "by": rec.get("solved_by") if isinstance(rec.get("solved_by"), str) and rec.get("solved_by") else "ABSENT",
                          "echo_facts": {k: v for k, v in proj.facts(echo if isinstance(echo, str) else "").items()
                                         if k in ("parses", "l", "r")}})
         os.remove(dst)
